@@ -160,6 +160,21 @@ impl Property for C08 {
     }
     fn run_case(&mut self, case: &str, _drv: &mut Driver) -> CaseOutcome {
         let mut o = CaseOutcome::default();
+        if let Some(p1) = case.strip_prefix("dump ") {
+            let mut vm = new_vm();
+            println!("{:?}", run_src(&mut vm, "p1.tex", &decode(p1)));
+            let v = serde_json::to_value(&vm).unwrap();
+            println!("commands_map: {}", v["commands_map"]);
+            println!("save_stack: {}", v["save_stack"]);
+            let mut i = v["internal"].clone();
+            i.as_object_mut().unwrap().remove("tracer");
+            println!("internal: {}", i);
+            for (k, x) in v["state"].as_object().unwrap() {
+                let t = x.to_string();
+                if t.len() < 300 { println!("state.{k}: {t}"); } else { println!("state.{k}: [{} bytes]", t.len()); }
+            }
+            return o;
+        }
         let body = case.strip_prefix("tex ").unwrap();
         let (p1, p2) = body.split_once("<CP>").unwrap();
         let (p1, p2) = (decode(p1), decode(p2));
